@@ -315,6 +315,9 @@ func invocationCases(r *rand.Rand, n int) []Case {
 			case 0:
 			case 1:
 				pos = []string{pick(r, []string{ra.arg, ra.arg, ra.id, ra.arg + ".ra", "999999", "94210", "-"})}
+				if cmd == "format" && len(ct.incl) > 0 && chance(r, 0.4) {
+					pos = []string{pick(r, []string{ct.incl[0], ct.incl[0] + ".ra", ct.incl[0] + ".txt", "nosuchinclude", ra.id + ".", ra.id + ".yaml"})}
+				}
 			case 2:
 				pos = []string{ra.arg, ra.arg}
 			default:
